@@ -66,6 +66,14 @@ where
     }
 }
 
+#[cfg(p2panda_p2panda_verif)]
+impl<T> DeduplicationBuffer<T> {
+    /// Verification hook: `(ring length, set length, ring capacity)`.
+    pub fn verif_sizes(&self) -> (usize, usize, usize) {
+        (self.buffer.len(), self.set.len(), self.buffer.capacity())
+    }
+}
+
 #[cfg(test)]
 mod tests {
     use super::*;
